@@ -114,6 +114,9 @@ func run(c *core.Ctx) {
 			runEdge(c, sc, w, i, k, &as)
 		}
 	}
+	if c.Thorough() {
+		runStrace(c, sc, w, as.straceBatch)
+	}
 	base += nEdge
 	nEvAgain := c.N(32, 320)
 	for k := 0; k < nEvAgain; k++ {
